@@ -209,7 +209,7 @@ def gen_history(seed, tier, prop, kinds_allowed):
             scn['pool'] = list(scn['pool'])[:3]
     elif kind in ('tstatic', 'tdpa'):
         k = r.randint(2, 5)
-        cl = list(range(k))
+        cl = r.choice([list(range(k)), list(range(k)), [c + 2 for c in range(k)], list(range(k))[::-1], [3 * c + 1 for c in range(k)]])
         m = r.randint(1, 5)
         scn['build'] = {'classes': cl, 'L': m, 'seed': rng.H(seed, 'build'), 'per_class': r.randint(3, 8),
                         'dtype': 'float32'}
